@@ -322,6 +322,152 @@ def check_tasks(acc: Acc, cases, drv):
                                                   "replay": {"layer": "tasks", "case": {"tasks": specs, "probes": [], "queries": [[mode, expr]]}}})
 
 
+# ---------------------------------------------------------------------------------------------
+# `after="<expr>"` on whole projects
+# ---------------------------------------------------------------------------------------------
+
+def check_after_projects(acc: Acc, cases):
+    """API level: the real DAG construction (`create_dag_from_session`) on tasks that carry `after` strings, for several
+    orders of `session.tasks`; the after-predecessors of every task are read off the resulting graph."""
+    from _pytask import dag as D
+    from _pytask.mark import Mark
+    from _pytask.nodes import PathNode
+    from _pytask.nodes import TaskWithoutPath
+
+    for case in cases:
+        specs = case["tasks"]
+        kind, want = orc.after_preds(specs)
+        shared = len({sp["after"] for sp in specs if sp.get("after") is not None}) < sum(1 for sp in specs if sp.get("after") is not None)
+        for order in case["orders"]:
+            acc.n += 1
+            objs = {}
+            for i in order:
+                sp = specs[i]
+
+                def fn():
+                    return None
+                for a in sp["attrs"]:
+                    fn.__dict__[a] = 1
+                objs[i] = TaskWithoutPath(name=sp["name"], function=fn, markers=[Mark(m, (), {}) for m in sp["markers"]],
+                                          produces={"out": PathNode(name=f"product-{i}", path=Path(f"/nonexistent-c16/product-{i}.txt"))},
+                                          attributes={"after": sp["after"]} if sp.get("after") is not None else {})
+            session = types.SimpleNamespace(tasks=[objs[i] for i in order], config={"paths": [], "expression": "", "marker_expression": ""})
+            try:
+                dag = D.create_dag_from_session(session)
+            except BaseException as ex:  # noqa: BLE001
+                real = "error"
+                err = type(ex).__name__
+            else:
+                producer = {}
+                for i, t in objs.items():
+                    for p in dag.successors(t.signature):
+                        producer[p] = i
+                sig = {t.signature: i for i, t in objs.items()}
+                real = []
+                for i in range(len(specs)):
+                    ps = set()
+                    for p in dag.predecessors(objs[i].signature):
+                        if p in producer:
+                            ps.add(producer[p])
+                        elif p in sig:
+                            ps.add(sig[p])
+                    real.append(sorted(ps))
+            acc.bump(f"after-project={kind}" + ("+shared" if shared else ""))
+            ok = (real == "error") if kind != "ok" else (real == want)
+            if kind == "ok" and shared and any(want):
+                acc.hashes += h8(json.dumps([specs, order], sort_keys=True))
+                if len(acc.samples) < 2:
+                    acc.samples.append({"tasks": [[sp["name"], sp.get("after")] for sp in specs], "order": order, "after-predecessors": real})
+            if not ok:
+                acc.nviol += 1
+                if len(acc.violations) < KEEP:
+                    shown = [[sp["name"], sp.get("after")] for sp in specs]
+                    exp = f"predecessors {want}" if kind == "ok" else f"an error ({kind})"
+                    acc.violations.append({"what": f"after-project: tasks (name, after) {shown} processed in order {order}: pytask's DAG gives after-predecessors "
+                                                   f"{real}, the formulas give {exp}",
+                                           "replay": {"layer": "after", "case": {"tasks": specs, "orders": [order]}}})
+
+
+E2E_CHILD = r'''
+import json, sys
+from pathlib import Path
+import pytask
+root = Path(sys.argv[1])
+s = pytask.build(paths=[root], capture="no")
+log = root / "log.txt"
+print("RESULT " + json.dumps({"exit": int(s.exit_code), "tasks": [[getattr(t, "base_name", t.name), t.name, sorted(t.function.__dict__)] for t in s.tasks],
+                              "order": log.read_text().split() if log.exists() else []}))
+'''
+
+
+def check_after_e2e(acc: Acc, cases):
+    """End to end: generated modules with `@task(after="<expr>")`, real `pytask.build` in a fresh process per project and
+    PYTHONHASHSEED; the observed execution order must respect every formula."""
+    import shutil
+    import tempfile
+
+    for case in cases:
+        root = Path(tempfile.mkdtemp(prefix="pv-c16-"))
+        try:
+            lines = ["from pathlib import Path", "import pytask", "from pytask import task", "HERE = Path(__file__).parent", ""]
+            for sp in case["tasks"]:
+                deco = [f"produces=HERE / {sp['func'] + '.txt'!r}"]
+                if sp.get("after") is not None:
+                    deco.insert(0, f"after={sp['after']!r}")
+                if sp.get("try_first"):
+                    lines.append("@pytask.mark.try_first")
+                lines.append(f"@task({', '.join(deco)})")
+                lines.append(f"def {sp['func']}():")
+                lines.append(f"    with (HERE / 'log.txt').open('a') as f:\n        f.write({sp['func']!r} + '\\n')")
+                lines.append(f"    return {sp['func']!r}")
+                lines.append("")
+            (root / f"task_{case['mod']}.py").write_text("\n".join(lines))
+            for hs in case["hashseeds"]:
+                acc.n += 1
+                for f in root.glob("*.txt"):
+                    f.unlink()
+                shutil.rmtree(root / ".pytask", ignore_errors=True)
+                env = dict(os.environ, PYTHONHASHSEED=str(hs), PYTHONDONTWRITEBYTECODE="1")
+                p = subprocess.run([sys.executable, "-c", E2E_CHILD, str(root)], capture_output=True, text=True, env=env, cwd=str(root), timeout=300)
+                res = [l for l in p.stdout.splitlines() if l.startswith("RESULT ")]
+                if not res:
+                    acc.selfcheck.append(f"after-e2e child failed: {p.stderr[-400:]}")
+                    continue
+                r = json.loads(res[-1][7:])
+                by_func = {b: (n, attrs) for b, n, attrs in r["tasks"]}
+                if set(by_func) != {sp["func"] for sp in case["tasks"]}:
+                    acc.selfcheck.append(f"after-e2e: collected {sorted(by_func)}, generated {[sp['func'] for sp in case['tasks']]}")
+                    continue
+                specs = [{"name": by_func[sp["func"]][0], "attrs": by_func[sp["func"]][1], "markers": ["try_first"] if sp.get("try_first") else [],
+                          "after": sp.get("after")} for sp in case["tasks"]]
+                kind, want = orc.after_preds(specs)
+                funcs = [sp["func"] for sp in case["tasks"]]
+                acc.bump(f"after-e2e={kind}")
+                bad = None
+                if kind != "ok":
+                    if r["exit"] == 0 or r["order"]:
+                        bad = f"exit code {r['exit']}, executed {r['order']}, but the after formulas give {kind}"
+                else:
+                    pos = {f: k for k, f in enumerate(r["order"])}
+                    if r["exit"] != 0 or sorted(r["order"]) != sorted(funcs):
+                        bad = f"exit code {r['exit']}, executed {r['order']}"
+                    else:
+                        for i, ps in enumerate(want):
+                            for j in ps:
+                                if pos[funcs[j]] > pos[funcs[i]]:
+                                    bad = f"{funcs[i]} (after={specs[i]['after']!r}) ran before {funcs[j]}, which its formula matches; order {r['order']}"
+                    if any(want):
+                        acc.hashes += h8(json.dumps([case["tasks"], hs], sort_keys=True))
+                if bad:
+                    acc.nviol += 1
+                    if len(acc.violations) < KEEP:
+                        acc.violations.append({"what": f"after-e2e: project {[(sp['func'], sp.get('after'), bool(sp.get('try_first'))) for sp in case['tasks']]} "
+                                                       f"under PYTHONHASHSEED={hs}: {bad}",
+                                               "replay": {"layer": "after-e2e", "case": dict(case, hashseeds=[hs])}})
+        finally:
+            shutil.rmtree(root, ignore_errors=True)
+
+
 def main():
     job = json.load(sys.stdin)
     acc = Acc()
@@ -334,6 +480,10 @@ def main():
             check_strings(acc, job["strings"], drv)
         elif job["kind"] == "tasks":
             check_tasks(acc, job["cases"], drv)
+        elif job["kind"] == "after":
+            check_after_projects(acc, job["cases"])
+        elif job["kind"] == "after_e2e":
+            check_after_e2e(acc, job["cases"])
         else:
             raise SystemExit(f"unknown job kind {job['kind']}")
     finally:
